@@ -7,8 +7,8 @@ os.makedirs(dst, exist_ok=True)
 for f in ("patch.diff", "demo.py"):
     shutil.copy(os.path.join(src, f), os.path.join(dst, f))
 meta = json.load(open(os.path.join(src, "meta.json")))
-meta["confirmed"] = ("applied with `git -C /repo apply`; full suite: 496 passed; demo fails with the change and passes "
-                     "without it; checks run with harness/try_seed.sh; /repo restored with `git checkout -- .`")
+meta["confirmed"] = ("applied with `git apply` (in /repo or a scratch worktree of it); full suite: 496 passed; demo fails with the change and passes "
+                     "without it; checks run with harness/try_seed.sh or harness/try_batch_par.sh (scratch copies)")
 meta["caught_by"] = caught
 if note:
     meta["note"] = note
